@@ -6,6 +6,9 @@ pub struct IoError { pub kind: u8 }
 pub struct ProgressDrawTarget { _p: core::marker::PhantomData<()> }
 impl ProgressDrawTarget {
     uninterp spec fn wf2(&self) -> bool;     // the target's type invariant (defined in the bar_draw unit)
+    uninterp spec fn hidden(&self) -> bool;
+    #[verifier::external_body]
+    pub fn is_hidden(&self) -> (r: bool) ensures r == self.hidden() { unimplemented!() }
     #[verifier::external_body]
     pub fn mark_zombie(&mut self) { unimplemented!() }
 }
